@@ -93,6 +93,10 @@ def gen_random(cls, rng, count, maxnodes=8, minlen=100, maxlen=400, prefix="r"):
                 live = [(a, b) for (a, b) in live if a != u and b != u]
             else:
                 steps.append("qry %d %d" % (u, keys[rng.randrange(n)]))
+            # handle provenance (C03): the caller/callee handles are obtained as an iterator's edge endpoint (e), by upgrading
+            # another node's adjacency entry (t), through a container lookup (g) or as a search result (s)
+            if steps[-1].split()[0] in ("con", "try", "dis", "iso") and rng.random() < 0.3:
+                steps[-1] += " via:" + rng.choice("etgs")
             steps.append("snap")
         cases.append(Case("%s%s%d" % (prefix, cls, ci), cls, steps, dict(kind="history", length=len(steps))))
     return cases
